@@ -124,6 +124,18 @@ pub struct RefEnv<'a> {
     pub log: Vec<Ev>,
     pub faults: &'a [usize],
     pub fired: Vec<(usize, FaultKind)>,
+    /// state of the registered functions with the stateful sentinel behaviour `c` (a counter that
+    /// every call advances, except a call with the harness probe argument, which only reads it)
+    pub counters: BTreeMap<String, i64>,
+}
+
+/// Result of the stateful sentinel `c` on `arg` given its current count; advances the count.
+pub fn counter_sentinel(count: &mut i64, arg: &V) -> V {
+    let n = *count;
+    if *arg != Value::Int(crate::env::PROBE_ARG) {
+        *count += 1;
+    }
+    Value::Int(n)
 }
 
 impl<'a> RefEnv<'a> {
@@ -145,6 +157,7 @@ impl<'a> RefEnv<'a> {
             log: Vec::new(),
             faults,
             fired: Vec::new(),
+            counters: BTreeMap::new(),
         }
     }
 
@@ -202,6 +215,10 @@ impl<'a> RefEnv<'a> {
             }
         }
         if let Some(b) = behaviour {
+            if b == "c" {
+                let count = self.counters.entry(name.to_string()).or_insert(0);
+                return Ok(Ok(counter_sentinel(count, arg)));
+            }
             return Ok(Ok(sentinel(&b, arg)));
         }
         if !self.builtins_disabled {
